@@ -85,7 +85,9 @@ def strategy(tier):
     fault = st.one_of(
         st.none(),
         st.fixed_dictionaries({'kind': st.sampled_from(
-            ['connect', 'event', 'disconnect']), 'k': st.integers(0, 3)}))
+            ['connect', 'event', 'disconnect']), 'k': st.integers(0, 3),
+            # 'cancel': the (coroutine) handler ends with CancelledError
+            'exc': st.sampled_from(['raise', 'raise', 'cancel'])}))
     return st.fixed_dictionaries({
         'aio': st.booleans(),
         'async_handlers': st.booleans(),
@@ -111,11 +113,18 @@ def _mk_world(case):
         st_['counts'][kind] = n + 1
         f = st_['fault']
         if f and f['kind'] == kind and f['k'] == n:
+            if f.get('exc') == 'cancel' and case['aio']:
+                import asyncio
+                raise asyncio.CancelledError()
             raise RuntimeError('injected fault in %s handler' % kind)
 
     for ns in ('/', '/a'):
-        def on_connect(sid, environ, auth=None):
-            hit('connect')
+        if case['aio']:
+            async def on_connect(sid, environ, auth=None):
+                hit('connect')
+        else:
+            def on_connect(sid, environ, auth=None):
+                hit('connect')
 
         if case['aio']:
             async def on_disconnect(sid, reason, ns=ns):
@@ -128,9 +137,14 @@ def _mk_world(case):
                     sio.close_room(sid, namespace=ns)
                 hit('disconnect')
 
-        def on_a(sid, *args):
-            hit('event')
-            return 'ok'
+        if case['aio']:
+            async def on_a(sid, *args):
+                hit('event')
+                return 'ok'
+        else:
+            def on_a(sid, *args):
+                hit('event')
+                return 'ok'
         sio.on('connect', on_connect, namespace=ns)
         sio.on('disconnect', on_disconnect, namespace=ns)
         sio.on('a', on_a, namespace=ns)
